@@ -29,18 +29,19 @@ func (t Trouble) Error() string { return t.Msg }
 func Troublef(f string, a ...interface{}) error { return Trouble{fmt.Sprintf(f, a...)} }
 
 type Env struct {
-	Home    string // /verif (or a snapshot of it)
-	Repo    string // /repo unless VERIF_REPO says otherwise
-	Scr     string // scratch directory, removed on exit
-	Seed    uint64
-	Tier    string
-	Jobs    int
-	Start   time.Time
-	GoEnv   []string
-	jobCtr  int64
-	Verbose bool
-	goroot  string
-	Clocks  map[string]*instr.ClockReport // clock seam of each scratch copy, by module file name
+	Home     string // /verif (or a snapshot of it)
+	Repo     string // /repo unless VERIF_REPO says otherwise
+	Scr      string // scratch directory, removed on exit
+	Seed     uint64
+	Tier     string
+	Jobs     int
+	Start    time.Time
+	GoEnv    []string
+	jobCtr   int64
+	Verbose  bool
+	goroot   string
+	slowRuns int64
+	Clocks   map[string]*instr.ClockReport // clock seam of each scratch copy, by module file name
 }
 
 func envInt(name string, def int) int {
@@ -185,6 +186,19 @@ func (e *Env) CopyRepoAs(name string) (string, error) {
 		e.Logf("clock seam: import \"time\" redirected to the simulated clock in %v", cr.Rewritten)
 	}
 	return dst, nil
+}
+
+// SlowIsNoVerdict: the tree under test waits on timers or sleeps (it imports package time). A history that does
+// not finish within the harness's wall-clock limit may then be slow rather than stuck; it is counted and
+// reported as inconclusive, never as a violation.
+func (e *Env) SlowIsNoVerdict(mod string, what string) bool {
+	if len(e.ClockFiles(mod)) == 0 {
+		return false
+	}
+	if atomic.AddInt64(&e.slowRuns, 1) == 1 {
+		e.Logf("INCONCLUSIVE: %s did not finish within the wall-clock limit on a tree that uses package time (timers and sleeps run in real time): no verdict", what)
+	}
+	return true
 }
 
 // ClockFiles lists the library files of a scratch copy that read the simulated clock.
